@@ -165,6 +165,10 @@ def installed(contracts, keep_real=(), backend=None, extra_patches=()):
             if "len" not in vars(mod):
                 saved.append((mod, "len", None, False))
                 setattr(mod, "len", vc_len)
+            if "range" not in vars(mod) and mname.startswith("cola.ops"):
+                from vcgen.idx import vc_range
+                saved.append((mod, "range", None, False))
+                setattr(mod, "range", vc_range)
     from contracts.plain import PLAIN
     for (mname, attr), fn in PLAIN.items():
         mod = sys.modules.get(mname)
